@@ -53,6 +53,52 @@ def run(ctx, replay=None):
                 ctx.count('living_instance', 'returned-bins-rescaled')
                 vc.eval_structure_case(ctx, model, dict(case, living_note='the array returned by bins was rescaled in place by the caller'), prop='C01', V=V)
                 continue
+            if rng.random() < 0.3:
+                # the caller edits the array returned by `values` and assigns it back: the differences follow the new values
+                try:
+                    V = vc.build(case)
+                    _ = V.experimental, V.bin_count
+                    vals_ = V.values
+                    newv = (np.asarray(vals_, float) * 3.0 + np.arange(len(vals_)) % 5).astype(np.asarray(vals_).dtype if np.asarray(vals_).dtype.kind == 'f' else float)
+                    if isinstance(vals_, np.ndarray) and vals_.dtype.kind == 'f':
+                        vals_[...] = newv
+                        V.values = vals_
+                    else:
+                        V.values = newv
+                except Exception as e:
+                    ctx.count('living_rejected', type(e).__name__)
+                    continue
+                nliving += 1
+                ctx.count('living_instance', 'values-edited-and-assigned-back')
+                vc.eval_structure_case(ctx, model, dict(case, values=np.asarray(newv, float).tolist(), values_dtype=None, values_as_list=False,
+                                                        living_note='values edited through the array returned by the values property and assigned back'), prop='C01', V=V)
+                continue
+            if rng.random() < 0.25 and case.get('bins') is None:
+                # a pre-built MetricSpace; the caller re-uses the array it was built from; then new values are assigned
+                try:
+                    from skgstat import MetricSpace
+                    buf = np.array(case['coords'], float)
+                    ml_ = case.get('maxlag')
+                    msp = MetricSpace(buf, case['dist_func'], ml_ if (isinstance(ml_, float) and ml_ >= 1 and case['dist_func'] == 'euclidean') else None)
+                    V = vc.build(dict(case, coords_dtype=None, coords_layout=None), coordinates_override=msp)
+                    _ = V.experimental
+                    buf *= 0.5
+                    buf += 3.0
+                    newv = (np.array(case['values'], float) * 2.0 + 1.0)
+                    V.values = newv
+                    orig_ = np.array(case['coords'], float)
+                    rep_ = np.asarray(V.coordinates, float).reshape(len(orig_), -1)[:, :orig_.shape[1]]
+                    if not np.array_equal(rep_, orig_):
+                        ctx.problem('oracle', 'the variogram reports other coordinates than the points its distances and lag classes were computed from (the caller rescaled the source array of the MetricSpace)',
+                                    dict(case, living_note='metricspace-buffer-reused'), {'reported_first': rep_[:2].tolist(), 'built_from_first': orig_[:2].tolist()}, {'what': 'coordinates-follow-caller'})
+                except Exception as e:
+                    ctx.count('living_rejected', type(e).__name__)
+                    continue
+                nliving += 1
+                ctx.count('living_instance', 'metricspace-buffer-reused')
+                vc.eval_structure_case(ctx, model, dict(case, values=newv.tolist(), values_dtype=None, values_as_list=False,
+                                                        living_note='built on a MetricSpace whose source array the caller rescaled afterwards; values assigned anew'), prop='C01', V=V)
+                continue
             other = rng.choice([m for m in ('euclidean', 'cityblock', 'chebyshev') if m != case['dist_func']])
             try:
                 V = vc.build(case)
